@@ -14,7 +14,7 @@ import (
 
 func init() {
 	register(&Prop{
-		ID: "C06", Level: "exploration", Quick: 20000, Thorough: 600000,
+		ID: "C06", Level: "exploration", Quick: 100000, Thorough: 6000000,
 		Rule: "trial = (query alignment 1..6, target alignment 1..14 (10%: 15..40) with ties, duplicates, heavily ambiguous and all-N targets in any file position, measure raw/snp/tn93, plain closest or -n K (incl. K > targets) and/or -d D (at, just below, just above occurring distances), --table); 3 seeded schedules with -t in {1,2,3,4,8} and NumCPU in {1..16}; oracle = executable model of the total order (defined before undefined, distance, completeness desc, file position); non-trivial = >= 2 queries and >= 3 targets and (a tie on distance, or an undefined distance, or results arrived out of query order); distinct = distinct (inputs, options)",
 		Gen:   genC06,
 		Check: checkC06,
